@@ -11,7 +11,9 @@ PROP = dict(
                "the whole of local mode) by induction over all submit/process_queue sequences; (3) the batching rule (C07). "
                "Tied to the code by history replay of real executions, the queue and batch correspondence suites and the "
                "generated predicates of is_job_blocked / submit / process_queue / _check_completions.",
-    level_note="Trusted: Lean kernel (+3 standard axioms), harness/vcluster.py and the event translation, atomicity of one "
+    level_note="System cases include 'nodefaults': lock timeout / quota error when a node appends a result (the runner must "
+               "not release the dependents of a job whose row could not be written). "
+               "Trusted: Lean kernel (+3 standard axioms), harness/vcluster.py and the event translation, atomicity of one "
                "boundary event. Outside the model: visibility of a written row on a real distributed filesystem.",
     assumptions=["a row counts as recorded once the append returned under the file's lock", "job names unique"],
     explanation="System proof Proofs/SystemRows.lean (BlockInv) + Props/Queue.lean + C07.",
